@@ -1,7 +1,7 @@
 #!/bin/bash
 # Run once after a fresh restore, offline: builds the framework (warms the Go build cache).
 set -e
-cd /verif
+cd "$(dirname "$(readlink -f "$0")")"
 export GOFLAGS=-mod=mod GOPROXY=off GOSUMDB=off GOTOOLCHAIN=local
 export GOCACHE=${GOCACHE:-/verif/.work/gocache}
 mkdir -p .work evidence replays
